@@ -6,6 +6,8 @@ Operations (a history is a list of them):
   ['X', i, j]  cancel the i-th scheduled action
   ['T']        let the earliest loop timer fire (virtual time jumps to it), run to quiescence
   ['A', m]     advance the clock by ADV[m], firing due loop timers on the way
+  ['J', m]     the clock jumps ahead by JUMP[m] in one step (the process was busy or stopped: sleepers whose wake-up time was
+               passed on the way all wake up late, at the new time); the clock "reaches" every time in between at the new time
 j is the preemption mode of S/X: 0 = run the loop to quiescence afterwards, j>0 = run only j-1 ready
 callbacks afterwards, so the *next* operation lands between two ready callbacks - e.g. inside the
 worker's clear -> sleep(0) -> peek -> wait window.  At most `max_preempt` preempting operations
@@ -29,6 +31,8 @@ class St(object):
     self.scale = params['res'] / 0.01
     self.dts = [d * self.scale for d in params['dts']]
     self.advs = [d * self.scale for d in params['advs']]
+    self.jump_by = [d * self.scale for d in params.get('jumps', [])]
+    self.jumped = []    # (from, to): intervals the clock skipped in one step
     self.horizon = vloop.EPOCH + params.get('horizon', 0.2) * self.scale
     # the module-level queues (1 s low-resolution clock tick) are not under test here: cancel what they hold so that
     # long clock advances do not have to step through thousands of their ticks
@@ -87,6 +91,11 @@ class St(object):
       vloop.run_ready()
     elif kind == 'A':
       self._advance(lp.now() + self.advs[op[1]])
+    elif kind == 'J':
+      target = lp.now() + self.jump_by[op[1]]
+      self.jumped.append((lp.now(), target))
+      lp.advance_to(target)
+      self._advance(target)          # every sleeper that is overdue now wakes up, at the new time
     else:
       raise ValueError(op)
 
@@ -133,7 +142,17 @@ class St(object):
       for m in range(len(self.advs)):
         if lp.now() + self.advs[m] <= self.horizon:
           ops.append(['A', m])
+      for m in range(len(self.jump_by)):
+        if lp.now() + self.jump_by[m] <= self.horizon:
+          ops.append(['J', m])
     return ops
+
+  def reached(self, t):
+    """The time at which the clock first showed a value >= t."""
+    for lo, hi in self.jumped:
+      if lo < t - EPS and t < hi:
+        return hi
+    return t
 
   # ---- oracle --------------------------------------------------------------------------------
   def check_safety(self):
@@ -176,7 +195,7 @@ class St(object):
         v.append(self._v('C10.never-ran', 'action %d (deadline %.4f) never ran by the horizon'
                          % (i, a['D'] - vloop.EPOCH), i))
         continue
-      due = max(a['t_sched'], a['tick'])
+      due = self.reached(max(a['t_sched'], a['tick']))
       if a['runs'][0][0] > due + EPS:
         v.append(self._v('C10.ran-late', 'action %d due at %.4f ran at %.4f'
                          % (i, due - vloop.EPOCH, a['runs'][0][0] - vloop.EPOCH), i))
@@ -251,8 +270,13 @@ CONFIGS = {
     # many pending actions scheduled in every order of five deadlines (the queue's heap gets several levels deep)
     ({'res': 0.01, 'dts': [0.0025, 0.0125, 0.0225, 0.0325, 0.0425], 'advs': [], 'kinds': 'S',
       'max_actions': 7, 'max_preempt': 0, 'preempt_depth': 1}, 7),
+    # the clock jumps past one or several deadlines in one step (wake-ups observed late)
+    ({'res': 0.01, 'dts': [0.0025, 0.0125, 0.0325], 'advs': [0.005], 'jumps': [0.015, 0.04],
+      'max_actions': 3, 'max_preempt': 1, 'preempt_depth': 2}, 6),
   ],
   'thorough': [
+    ({'res': 0.01, 'dts': [-0.0125, 0.0025, 0.0125, 0.0325], 'advs': [0.005], 'jumps': [0.015, 0.04],
+      'max_actions': 4, 'max_preempt': 2, 'preempt_depth': 2}, 7),
     ({'res': 0.01, 'dts': [-0.0125, 0.0025, 0.0125, 0.0275], 'advs': [0.005, 0.02],
       'max_actions': 4, 'max_preempt': 2, 'preempt_depth': 3}, 7),
     ({'res': 1, 'dts': [-0.0125, 0.0025, 0.0125, 0.0275], 'advs': [0.005, 0.02],
